@@ -23,6 +23,7 @@ pub mod c16;
 pub mod c16legs;
 pub mod c17;
 pub mod c18;
+pub mod variants;
 
 /// generator entry points shared with C14
 pub fn c06gen(rng: &mut crate::fw::Rng) -> Vec<crate::gen::ir::Node> {
